@@ -244,4 +244,43 @@ PROPS = {
                      "continuity of the tuple form (false: KF-FEATURE)"],
         "assumes": ["shared declination"],
     },
+    "C05": {
+        "level_text": "partial: kernel-checked integer theorems, for every zone function and with the "
+                      "equation of time uninterpreted: the h/m/s carry block and the date roll of noon "
+                      "and midnight are exact (no lost second, no field out of range), noon is on the "
+                      "requested date whenever the candidate the code takes reads that date (in "
+                      "particular when the zone is aligned with mean solar time), and midnight is "
+                      "within 12 h + ε of 00:00 of the date in the zone. The 0.25° agreement with an "
+                      "independent ephemeris is not a theorem.",
+        "level_note": "midnight_nearest assumes consecutive solar midnights are 24 h ± ε apart and the "
+                      "UTC candidate within 36 h of the zone's 00:00.",
+        "lean_modules": ["Astral.Props.C05"],
+        "theorems": [
+            "Astral.C05.carrySM_spec", "Astral.C05.carrySM_minute_range", "Astral.C05.mkNoon_spec",
+            "Astral.C05.mkMidnight_spec", "Astral.C05.noon_on_date", "Astral.C05.noon_on_date_of_aligned",
+            "Astral.C05.midnight_nearest",
+        ],
+        "groups": [G("corr_sun", "sun_events", 4500, 100000), G("corr_sun", "sun_chain", 1400, 30000)],
+        "unproved": ["hour angle within 0.25° of 0 / 180 by an independent ephemeris",
+                     "the bound |eq_of_time| < 19 min used to discharge 'aligned'"],
+        "assumes": ["spacing of consecutive solar midnights (ε)"],
+    },
+    "C08": {
+        "level_text": "Kernel-checked theorems (exact reals): Python's float modulo is 1440-periodic, the "
+                      "true solar time of an aware datetime equals that of its UTC instant for every "
+                      "offset, hence zenith, azimuth and elevation depend on the instant only; a naive "
+                      "datetime is read as UTC; the hour angle is always in [−180°, 180°).",
+        "level_note": "For whole-second datetimes and offsets (microseconds are ignored by the code). "
+                      "IEEE rounding of the modulo is covered by the Float correspondence (1e-9).",
+        "lean_modules": ["Astral.Props.C08"],
+        "theorems": [
+            "Astral.C08.pymod_add_mul", "Astral.C08.pymod_range", "Astral.C08.fieldSeconds_shift",
+            "Astral.C08.trueSolarTime_invariant", "Astral.C08.naive_is_utc",
+            "Astral.C08.angles_instant_only", "Astral.C08.elevation_instant_only",
+            "Astral.C08.hourAngle_normalised",
+        ],
+        "groups": [G("corr_sun", "sun_angles", 6000, 200000), G("corr_julian", "julian", 1200, 20000)],
+        "unproved": [],
+        "assumes": ["whole-second datetimes"],
+    },
 }
